@@ -143,6 +143,7 @@ CHECKS["C07"] = dict(
         dict(pkg="server", name="C07_restart", bound="one key, one hold: every 16-bit E != 0, seconds/minute/unlimited, aof timing default / persist-immediately / never, symbolic Count and Rcount, depth 1..2, age 0..2 s before the stop, outage 0/1/2/61/4000 s", flags=["-witness", "20", "-timeout", "3000"],
              reach=["end", "restored", "not-restored", "not-persisted"]),
         dict(pkg="server", name="C07_history", bound="every prefix (1..6 operations) of lock / re-lock / lock other key or re-lock / unlock one level / unlock one level or all / unlock all on persisted re-entrant holds, then restart", flags=["-witness", "1"], reach=["end"]),
+        dict(pkg="server", name="C07_values", bound="a persisted hold whose LOCK carries a value operation (any operation on an empty key), optionally a second operation by the same holder (update flag) or by a second holder; restart on the same directory: holders and value compared with a sequential interpreter", flags=["-witness", "5"], reach=["end", "second-op"]),
     ],
 )
 
@@ -196,6 +197,7 @@ CHECKS["C18"] = dict(
         dict(pkg="server", name="C18_wills", bound="0..3 registered wills, each a LOCK of one shared exclusive key (so order is observable) or an UNLOCK of the connection's hold; one hold and one queued request left behind; Close twice; clock advanced past the queued request's timeout", flags=["-witness", "1"], reach=["end", "closed"]),
         dict(pkg="server", name="C18_route", bound="a closed client's proxy with a symbolic 16-byte client id, two connected clients with symbolic client ids", flags=["-witness", "1"], reach=["end", "dropped", "rerouted"]),
         dict(pkg="server", name="C18_reconnect", bound="client announces its id (INIT) and leaves a queued request; reconnect under the same id before or after the old connection closes; the later grant must reach the reconnected connection", flags=["-witness", "1"], reach=["end"]),
+        dict(pkg="server", name="C18_textwills", bound="a text connection (real TextServerProtocol over an in-memory net.Conn) that takes a hold and registers 0..6 wills in text form (LOCK / UNLOCK ... WILL 1), then Close twice; Close must return (a path on which it blocks is a violation)", flags=["-witness", "1"], reach=["end", "closed"], blocked="violation"),
     ],
 )
 
